@@ -83,6 +83,13 @@ pub fn monitor(out: &RunOut) -> MonOut {
                     // value is announced it must be a faithful reading of the bytes
                     m.count("R4.arbitrary_bytes");
                     if announced.len() == 1 && !r.body.is_empty() {
+                        // a replacement character in what is announced must be spelled by the bytes
+                        // (a lenient decoding of ill-formed UTF-8 inside a string the parser reads would
+                        // produce one out of nothing)
+                        let spelled = r.body.windows(3).any(|w| w == [0xef, 0xbf, 0xbd]);
+                        if !spelled && canon(announced[0]).contains('\u{fffd}') {
+                            m.viol(p, "R1", &site, "the announced response contains U+FFFD although the delivered bytes do not spell it: ill-formed UTF-8 was accepted and rewritten".to_string());
+                        }
                         match read_body(&r.body).and_then(|v| expected_announce(&v)) {
                             Some(exp) => {
                                 if canon(&strip_nulls(announced[0])) != canon(&strip_nulls(&exp)) {
